@@ -148,6 +148,7 @@ class Interp:
         self._exc_mro: dict[str, tuple[str, ...]] = {}
         self.ignore_calls: set[str] = {"_griffe.logger.logger"}
         self.ext_handlers: dict[str, Callable[..., Any]] = {}
+        self.stubs: dict[str, Callable[..., Any]] = {}  # in-repo function qualname -> replacement (callee boundary of a table)
 
     # ------------------------------------------------------------------ public
     def call(self, fn: FunctionInfo, *args: Any, **kwargs: Any) -> Any:
@@ -178,6 +179,8 @@ class Interp:
             raise AnalysisError(f"abstract evaluation exceeded {self.max_steps} steps (non-terminating on the abstract domain?)")
 
     def _invoke(self, fn: FunctionInfo, args: list[Any], kwargs: dict[str, Any], closure_env: Env | None) -> Any:
+        if fn.qualname in self.stubs:
+            return self.stubs[fn.qualname](self, *args, **kwargs)
         self.depth += 1
         if self.depth > self.max_depth:
             self.depth -= 1
@@ -967,6 +970,10 @@ class Interp:
                 if isinstance(v, Sym) and v.name.split(".")[0] == s.cls.name:
                     return True
             elif isinstance(s, ExtRef):
+                if isinstance(v, Obj) and "__isa__" in v.attrs:
+                    if s.name in v.attrs["__isa__"] or s.name.split(".")[-1] in {x.split(".")[-1] for x in v.attrs["__isa__"]}:
+                        return True
+                    continue
                 t = NATIVE_TYPES.get(s.name.split(".")[-1])
                 if t is not None and not isinstance(v, (Obj, Sym)) and isinstance(v, t):
                     return True
